@@ -2,10 +2,12 @@ package checks
 
 import (
 	"fmt"
+	"regexp"
 	"strings"
 	"testing"
 
 	"github.com/antonmedv/expr/ast"
+	"github.com/antonmedv/expr/parser"
 	"pgregory.net/rapid"
 
 	"verifharness/core"
@@ -206,11 +208,13 @@ func isWordByte(c byte) bool {
 }
 
 var c11Alphabet = []string{"a", "b", "c", "f", "len", "map", "all", "1", "2", ".5", "'s'", "true", "nil",
+	// string literals whose content spells an operator or a bracket: the token KIND decides, not its text
+	`"("`, `'#'`, `"."`, `","`, `":"`, `"]"`,
 	"or", "||", "and", "&&", "==", "!=", "<", ">", "<=", ">=", "in", "not in", "matches", "contains", "startsWith", "endsWith",
 	"..", "+", "-", "*", "/", "%", "**", "not", "!", "?", ":", "?.", ".", ",", "(", ")", "[", "]", "{", "}", "#"}
 
 // one representative per token class (for the longer exhaustive tier)
-var c11Reduced = []string{"a", "f", "len", "all", "1", "'s'", "nil", "or", "and", "==", "not in", "..", "+", "-", "*", "**", "not", "?", ":", "?.", ".", ",", "(", ")", "[", "]", "{", "}", "#"}
+var c11Reduced = []string{"a", "f", "len", "all", "1", "'s'", `")"`, "nil", "or", "and", "==", "not in", "..", "+", "-", "*", "**", "not", "?", ":", "?.", ".", ",", "(", ")", "[", "]", "{", "}", "#"}
 
 func c11Excluded(toks []string) string {
 	for i := 0; i+1 < len(toks); i++ {
@@ -222,6 +226,12 @@ func c11Excluded(toks []string) string {
 		if a == "not" && b == "in" {
 			return "not-in-glue"
 		}
+		if a == "matches" && len(b) >= 2 && (b[0] == '"' || b[0] == '\'') {
+			// a literal pattern is compiled by the parser: an invalid one is rejected there (by design)
+			if _, err := regexp.Compile(b[1 : len(b)-1]); err != nil {
+				return "invalid-literal-pattern"
+			}
+		}
 		if a == "?." && (b == "." || b == "?." || b == "?" || b == ".." || strings.HasPrefix(b, ".")) {
 			return "nilsafe-token-glue"
 		}
@@ -230,6 +240,12 @@ func c11Excluded(toks []string) string {
 		}
 	}
 	return ""
+}
+
+var c11Prev struct {
+	tree *parser.Tree
+	src  string
+	sexp string
 }
 
 func judgeC11Tokens(c *core.Case, cfg *core.Config) core.Verdict {
@@ -250,6 +266,16 @@ func judgeC11Tokens(c *core.Case, cfg *core.Config) core.Verdict {
 	}
 	want, ok := core.RefParse(toks)
 	tree, err := parseSafe(src)
+	// a tree handed out by an earlier Parse must not be affected by later calls
+	if c11Prev.tree != nil {
+		if now := astSexp(c11Prev.tree.Node, true); now != c11Prev.sexp {
+			v.Violation = fmt.Sprintf("parsing %q altered the tree returned earlier for %q: it was %s, now %s", src, c11Prev.src, c11Prev.sexp, now)
+			return v
+		}
+	}
+	if err == nil && tree != nil {
+		c11Prev.tree, c11Prev.src, c11Prev.sexp = tree, src, astSexp(tree.Node, true)
+	}
 	if err != nil && strings.HasPrefix(err.Error(), "PANIC") {
 		v.Violation = fmt.Sprintf("%q: %v", src, err)
 		return v
